@@ -293,7 +293,7 @@ func TestC16(t *testing.T) {
 	busyIsViolation = true
 	rapid.Check(t, func(t *rapid.T) {
 		cfg := hist.DrawCfg(t, 40, []int{1, 2, 3, 7, 20})
-		g := hist.NewGen(t, c06Weights, hist.Universe[:13], 3, cfg.RecordSize)
+		g := hist.NewGen(t, c06Weights, hist.Universe[:13], 3, cfg.RecordSize).WithSuffixNames(t, cfg)
 		g.Avoid = avoidFor("C16")
 		g.MaxSize = 6000
 		n := rapid.IntRange(2, *maxSteps).Draw(t, "nsteps")
